@@ -265,8 +265,8 @@ static void run_cfg_case(struct rng *r, long c)
 }
 
 /* ================================================================== failover scenarios */
-#define MAXS 6
-#define MAXG 3
+#define MAXS 8
+#define MAXG 4
 
 struct msock {
 	struct sim sim;
@@ -299,6 +299,7 @@ static pthread_mutex_t GM = PTHREAD_MUTEX_INITIALIZER;
 static pthread_cond_t GC = PTHREAD_COND_INITIALIZER;
 static volatile int TOKEN;
 static volatile bool FINISHING;
+static volatile bool WANT_PAUSE; /* the driver wants every thread at its gate (dynamic reconfiguration) */
 static volatile long STEPS;
 static long BUDGET;
 static struct rng GRNG;
@@ -378,6 +379,8 @@ static void pick_next_locked(void)
 			cand[n++] = i;
 	if (FINISHING)
 		TOKEN = -3; /* draining: everybody stays at the gate until the driver stops it */
+	else if (WANT_PAUSE)
+		TOKEN = -2;
 	else
 		TOKEN = n ? cand[rndn(&GRNG, (uint32_t)n)] : -1;
 	pthread_cond_broadcast(&GC);
@@ -462,14 +465,7 @@ void __wrap_rtr_stop(struct rtr_socket *s)
 			}
 		}
 	}
-	if (m) {
-		/* the victim may sit at the gate inside a call where cancellation is disabled: let it run ungated to its
-		 * next cancellation point, otherwise pthread_join() below would never return */
-		pthread_mutex_lock(&GM);
-		m->ungated = true;
-		pthread_cond_broadcast(&GC);
-		pthread_mutex_unlock(&GM);
-	}
+	/* the victim is let through its gate by __wrap_rtr_change_socket_state(RTR_SHUTDOWN), rtr_stop()'s first step */
 	__real_rtr_stop(s);
 	if (m) {
 		pthread_mutex_lock(&GM);
@@ -491,6 +487,16 @@ void __wrap_rtr_change_socket_state(struct rtr_socket *s, const enum rtr_socket_
 	if (m)
 		trace("state", m->idx, (int)st);
 	__real_rtr_change_socket_state(s, st);
+	if (m && st == RTR_SHUTDOWN) {
+		/* rtr_stop(): the manager's callback for SHUTDOWN has run on the stopping thread; cancel + join follow.  The
+		 * victim may sit at the gate inside a call where cancellation is disabled: from here on it runs ungated to its
+		 * next cancellation point (otherwise pthread_join() would never return), while the stopping thread does nothing
+		 * but wait for it - so that still only one thread at a time touches the manager and the monitor state. */
+		pthread_mutex_lock(&GM);
+		m->ungated = true;
+		pthread_cond_broadcast(&GC);
+		pthread_mutex_unlock(&GM);
+	}
 }
 
 static void status_cb(const struct rtr_mgr_group *group, enum rtr_mgr_status status, const struct rtr_socket *sock, void *data)
@@ -600,6 +606,41 @@ static void script_socket(struct simcfg *c, struct rng *r, int behaviour)
 	}
 }
 
+static void make_socket(struct rng *r, int g, int k, char *desc, size_t desclen)
+{
+	struct msock *m = &MS[NS];
+	struct simcfg cfg;
+	int b = (int)rndn(r, 6);
+	bset p, kk;
+
+	script_socket(&cfg, r, b);
+	memset(&m->sock, 0, sizeof(m->sock));
+	sim_init(&m->sim, &MU, &cfg, rnd64(r));
+	m->sim.monitors_off = true;
+	m->sim.owner = m;
+	m->sim.cache.session = (uint16_t)rnd32(r);
+	m->sim.cache.serial = rndn(r, 1000);
+	m->sim.cache.eod_refresh = cfg.refresh;
+	m->sim.cache.eod_retry = cfg.retry;
+	m->sim.cache.eod_expire = cfg.expire;
+	bs_zero(&p);
+	bs_zero(&kk);
+	for (int i = 0; i < 5; i++)
+		bs_set(&p, (int)rndn(r, (uint32_t)MU.np));
+	sim_cache_push_dataset(&m->sim, &p, &kk);
+	m->idx = NS;
+	m->group = g;
+	m->started = m->synced = m->ungated = m->waiting = false;
+	m->chk_est_pref = -1;
+	m->chk_err_target = -1;
+	m->sock.tr_socket = &m->sim.tr;
+	MG[g].ptrs[k] = &m->sock;
+	MG[g].sidx[k] = NS;
+	snprintf(desc + strlen(desc), desclen - strlen(desc), "%sg%u:%s", NS ? "," : "", MG[g].pref, BEHAV[b]);
+	cntf(1, "c15/socket_behaviour/%s", BEHAV[b]);
+	NS++;
+}
+
 static void run_fail_case(struct rng *r, long c)
 {
 	struct rtr_mgr_group groups[MAXG];
@@ -614,10 +655,12 @@ static void run_fail_case(struct rng *r, long c)
 	GRNG.s = rnd64(r);
 	TOKEN = -2;
 	FINISHING = false;
+	WANT_PAUSE = false;
 	STEPS = 0;
 	TRACE_H = 0;
 	EPOCH_CTR = 0;
 	BUDGET = 400 + (long)rndn(r, 1200);
+	long add_at = rndp(r, 1, 3) ? BUDGET / 3 + (long)rndn(r, (uint32_t)(BUDGET / 3)) : 0;
 	universe_build(&MU, r, 24, 6);
 	/* groups are handed to rtr_mgr_init in random order of preference */
 	for (int i = 2; i > 0; i--) {
@@ -632,39 +675,8 @@ static void run_fail_case(struct rng *r, long c)
 		MG[g].pref = prefs[g];
 		MG[g].reported = -1;
 		MG[g].start_epoch = 0;
-		for (int k = 0; k < MG[g].ns; k++) {
-			struct msock *m = &MS[NS];
-			struct simcfg cfg;
-			int b = (int)rndn(r, 6);
-			bset p, kk;
-
-			script_socket(&cfg, r, b);
-			memset(&m->sock, 0, sizeof(m->sock));
-			sim_init(&m->sim, &MU, &cfg, rnd64(r));
-			m->sim.monitors_off = true;
-			m->sim.owner = m;
-			m->sim.cache.session = (uint16_t)rnd32(r);
-			m->sim.cache.serial = rndn(r, 1000);
-			m->sim.cache.eod_refresh = cfg.refresh;
-			m->sim.cache.eod_retry = cfg.retry;
-			m->sim.cache.eod_expire = cfg.expire;
-			bs_zero(&p);
-			bs_zero(&kk);
-			for (int i = 0; i < 5; i++)
-				bs_set(&p, (int)rndn(r, (uint32_t)MU.np));
-			sim_cache_push_dataset(&m->sim, &p, &kk);
-			m->idx = NS;
-			m->group = g;
-			m->started = m->synced = m->ungated = m->waiting = false;
-			m->chk_est_pref = -1;
-			m->chk_err_target = -1;
-			m->sock.tr_socket = &m->sim.tr;
-			MG[g].ptrs[k] = &m->sock;
-			MG[g].sidx[k] = NS;
-			snprintf(desc + strlen(desc), sizeof(desc) - strlen(desc), "%sg%u:%s", NS ? "," : "", MG[g].pref, BEHAV[b]);
-			cntf(1, "c15/socket_behaviour/%s", BEHAV[b]);
-			NS++;
-		}
+		for (int k = 0; k < MG[g].ns; k++)
+			make_socket(r, g, k, desc, sizeof(desc));
 		groups[g].sockets = MG[g].ptrs;
 		groups[g].sockets_len = (unsigned int)MG[g].ns;
 		groups[g].preference = MG[g].pref;
@@ -717,7 +729,65 @@ static void run_fail_case(struct rng *r, long c)
 				watchdog = true;
 				break;
 			}
-			/* optionally add / remove a group half way (dynamic reconfiguration) */
+			/* dynamic reconfiguration: half way through, one scenario in three gets a new group whose preference lies
+			 * before, between or behind the existing ones.  Every thread is brought to its gate first. */
+			if (add_at && STEPS >= add_at && NG < MAXG && NS + 2 <= MAXS) {
+				struct rtr_mgr_group ng2;
+				static const uint8_t NEWP[] = {5, 15, 25, 35};
+				int g = NG, rc2;
+				bool quiet = false;
+
+				add_at = 0;
+				pthread_mutex_lock(&GM);
+				WANT_PAUSE = true;
+				for (int spins = 0; spins < 5000 && !quiet; spins++) {
+					struct timespec ts2;
+
+					quiet = TOKEN == -2 || TOKEN == -1;
+					for (int i = 0; i < NS; i++)
+						if (MS[i].started && !MS[i].waiting)
+							quiet = false;
+					if (quiet)
+						break;
+					clock_gettime(CLOCK_REALTIME, &ts2);
+					ts2.tv_nsec += 1000000;
+					if (ts2.tv_nsec >= 1000000000) {
+						ts2.tv_sec++;
+						ts2.tv_nsec -= 1000000000;
+					}
+					pthread_cond_timedwait(&GC, &GM, &ts2);
+				}
+				if (quiet) {
+					TOKEN = -2;
+					MG[g].ns = 1 + (int)rndn(r, 2);
+					MG[g].pref = NEWP[rndn(r, 4)];
+					MG[g].reported = -1;
+					MG[g].start_epoch = 0;
+					for (int k = 0; k < MG[g].ns; k++)
+						make_socket(r, g, k, desc, sizeof(desc));
+					NG++;
+					for (int k = 0; k < MG[g].ns; k++)
+						sim_attach(&MS[MG[g].sidx[k]].sim, &MS[MG[g].sidx[k]].sock, conf->pfx_table, conf->spki_table);
+					CNT("c15/groups_added_while_running");
+					pthread_mutex_unlock(&GM);
+					ng2.sockets = MG[g].ptrs;
+					ng2.sockets_len = (unsigned int)MG[g].ns;
+					ng2.preference = MG[g].pref;
+					ng2.status = RTR_MGR_CLOSED;
+					rc2 = rtr_mgr_add_group(conf, &ng2);
+					/* threads the call started run up to their first gate; counters and verdicts are only touched under GM */
+					pthread_mutex_lock(&GM);
+					if (rc2 != RTR_SUCCESS)
+						viol("C15", "C15:add-group-fresh-preference-refused:running", "rtr_mgr_add_group(preference %u) on a running manager returned %d", MG[g].pref, rc2);
+					check_order(conf, "add-while-running", NG);
+				}
+				WANT_PAUSE = false;
+				if (TOKEN == -2) {
+					TOKEN = -1;
+					pick_next_locked();
+				}
+				pthread_mutex_unlock(&GM);
+			}
 		}
 		if (watchdog)
 			CNT("c15/watchdog_fired_inconclusive");
